@@ -32,6 +32,9 @@ func gen(r *sim.Rng, tier string) *sim.Case {
 	switch p["scen"] {
 	case 0, 1:
 		n := r.N(maxN + 1)
+		if r.Pct(2) {
+			n = r.Range(13, 17) // rare large instance: 2^17 subsets are still enumerable
+		}
 		wdom := []int{3, 6, 12, 30}[r.N(4)] // small domains: many equal weights and values
 		vdom := []int{2, 5, 20}[r.N(3)]
 		sum := 0
@@ -51,6 +54,9 @@ func gen(r *sim.Rng, tier string) *sim.Case {
 		p["over"] = r.N(2)
 	case 2:
 		nv := r.Range(1, 9)
+		if r.Pct(3) {
+			nv = r.Range(10, 13)
+		}
 		p["nv"] = nv
 		kind := r.Pick(4, 2, 1, 1)
 		p["gkind"] = kind
@@ -321,8 +327,8 @@ func cliques(c *sim.Case, out *sim.WorkerOut, dg *engc.Digest) *sim.Violation {
 	if nv < 1 {
 		nv = 1
 	}
-	if nv > 12 {
-		nv = 12
+	if nv > 13 {
+		nv = 13
 	}
 	var g algz.Graph[int]
 	adj := make([][]bool, nv)
